@@ -488,3 +488,87 @@ func init() {
 	externals["sort.Slice"] = sortSlice
 	externals["sort.SliceStable"] = sortSlice
 }
+
+// ---- ASCII case mapping without forking ----
+
+func init() {
+	mk := func(upper, str bool) func(fr *frame, args []value) value {
+		return func(fr *frame, args []value) value {
+			bs, _ := strBytes(args[0])
+			if !str {
+				bs, _ = args[0].([]value)
+			}
+			hasSym := false
+			for _, b := range bs {
+				if _, ok := b.(sym); ok {
+					hasSym = true
+					break
+				}
+			}
+			if !hasSym || fr.i.ex == nil {
+				return notHandled
+			}
+			out := make([]value, len(bs))
+			for i, b := range bs {
+				switch b := b.(type) {
+				case byte:
+					if b >= 0x80 {
+						return notHandled // leave UTF-8 to the interpreted code
+					}
+					out[i] = asciiCase(b, upper)
+				case sym:
+					t, ok := caseMapTerm(fr.i.ex, b.t, upper)
+					if !ok {
+						return notHandled
+					}
+					out[i] = mkVal(types.Typ[types.Uint8], t)
+				}
+			}
+			if str {
+				return mkSymstr(out)
+			}
+			return out
+		}
+	}
+	externals["bytes.ToUpper"] = mk(true, false)
+	externals["bytes.ToLower"] = mk(false, false)
+	externals["strings.ToUpper"] = mk(true, true)
+	externals["strings.ToLower"] = mk(false, true)
+}
+
+func asciiCase(b byte, upper bool) byte {
+	if upper && 'a' <= b && b <= 'z' {
+		return b - 32
+	}
+	if !upper && 'A' <= b && b <= 'Z' {
+		return b + 32
+	}
+	return b
+}
+
+// caseMapTerm maps one symbolic byte; it is exact only for 7-bit bytes, so the byte must provably be below 0x80.
+func caseMapTerm(e *Explorer, t *smt.Term, upper bool) (*smt.Term, bool) {
+	c := e.Ctx
+	if tb, ok := c.AsTable(t); ok {
+		// a constant table lookup stays one: map the entries
+		for _, v := range append(append([]uint64{}, tb.Vals...), tb.Def) {
+			if v >= 0x80 {
+				return nil, false
+			}
+		}
+		r := c.Const(uint64(asciiCase(byte(tb.Def), upper)), 8)
+		for i := len(tb.Keys) - 1; i >= 0; i-- {
+			r = c.Ite(c.Eq(tb.X, c.Const(tb.Keys[i], tb.X.W)), c.Const(uint64(asciiCase(byte(tb.Vals[i]), upper)), 8), r)
+		}
+		return r, true
+	}
+	if e.feasible(c.Cmp(smt.OpULe, c.Const(0x80, 8), t)) != smt.Unsat {
+		return nil, false
+	}
+	lo, hi, d := byte('a'), byte('z'), c.Bin(smt.OpSub, t, c.Const(32, 8))
+	if !upper {
+		lo, hi, d = 'A', 'Z', c.Bin(smt.OpAdd, t, c.Const(32, 8))
+	}
+	in := c.BAnd(c.Cmp(smt.OpULe, c.Const(uint64(lo), 8), t), c.Cmp(smt.OpULe, t, c.Const(uint64(hi), 8)))
+	return c.Ite(in, d, t), true
+}
